@@ -155,11 +155,36 @@ func C14(c *fw.Ctx) {
 			}
 		}
 	}
+	// the same with one or both operands written as a bare literal / bare expression of the value
+	// (no call in between): which operand's value is yielded must not depend on how the operand is written
+	for _, op := range append(allOps, logOps...) {
+		for _, a := range vals {
+			for _, b := range vals {
+				if !c.Mine() {
+					continue
+				}
+				mk := func(l, r *model.N) *model.N {
+					if model.BinLevel[op] == 0 {
+						return model.Log(op, l, r)
+					}
+					return model.Bin(op, l, r)
+				}
+				tag = 0
+				run("bare-right|bin"+op, mk(P(a.Mk()), b.Mk()))
+				tag = 0
+				run("bare-left|bin"+op, mk(a.Mk(), P(b.Mk())))
+				tag = 0
+				run("bare-both|bin"+op, mk(a.Mk(), b.Mk()))
+			}
+		}
+	}
 	for _, op := range []string{"-", "!", "~"} {
 		for _, a := range vals {
 			if !c.Mine() {
 				continue
 			}
+			tag = 0
+			run("bare|un"+op, model.Un(op, a.Mk()))
 			tag = 0
 			run("un"+op, model.Un(op, P(a.Mk())))
 			tag = 0
